@@ -152,6 +152,50 @@ func checkCopy(r *Run) {
 		checkCopyMethod(r, cp, n, fd)
 	}
 	checkCopyHelpers(r, cp)
+	// (d) every copy() method of a pointer receiver allows for a nil receiver: Copy's type switch hands a typed nil
+	// pointer straight to copy(), and copySlice-style helpers hand over nil elements
+	for n, fd := range copyMethods {
+		if fd.Recv == nil || len(fd.Recv.List) != 1 || len(fd.Recv.List[0].Names) != 1 {
+			continue
+		}
+		if _, isPtr := fd.Recv.List[0].Type.(*ast.StarExpr); !isPtr {
+			continue
+		}
+		if !hasCase(types.NewPointer(n)) {
+			continue // helper types embedded by value never reach copy() through a nil pointer
+		}
+		recv := info.Defs[fd.Recv.List[0].Names[0]]
+		guarded := false
+		if len(fd.Body.List) > 0 {
+			if ifs, ok := fd.Body.List[0].(*ast.IfStmt); ok {
+				ast.Inspect(ifs.Cond, func(x ast.Node) bool {
+					if be, ok := x.(*ast.BinaryExpr); ok && be.Op == token.EQL {
+						if id, ok := ast.Unparen(be.X).(*ast.Ident); ok && info.Uses[id] == recv && isNilIdent(info, ast.Unparen(be.Y)) {
+							guarded = true
+						}
+					}
+					return true
+				})
+			}
+		}
+		derefs := false
+		ast.Inspect(fd.Body, func(x ast.Node) bool {
+			if sel, ok := x.(*ast.SelectorExpr); ok {
+				if id, ok := ast.Unparen(sel.X).(*ast.Ident); ok && info.Uses[id] == recv {
+					if _, isField := info.Uses[sel.Sel].(*types.Var); isField {
+						derefs = true
+					}
+				}
+			}
+			return true
+		})
+		if guarded || !derefs {
+			r.Pass("C11-copy-nil-guard", n.Obj().Name(), fd.Pos(), "copy() allows for a nil receiver")
+		} else {
+			r.Fail("C11-copy-nil-guard", n.Obj().Name(), fd.Pos(), "(*%s).copy dereferences its receiver without the nil guard its siblings have: Copy panics on a nil *%s (an empty slot of a list of these nodes, or a typed nil stored in an expression field) instead of copying it as nil", n.Obj().Name(), n.Obj().Name())
+		}
+	}
+	r.Floor("C11-copy-nil-guard", 40)
 	r.Floor("C11-copy-case", 50)
 	r.Floor("C11-copy-field", 100)
 }
@@ -322,8 +366,10 @@ func checkCopyMethod(r *Run, cp *packages.Package, n *types.Named, fd *ast.FuncD
 				}
 			}
 			switch {
+			case payload && bad != "":
+				r.Fail("C11-copy-field", construct, vals[0].Pos(), "field %s of type any is assigned from %s itself: when the value is a slice or a map (a list parameter, a literal built from a Go slice) copy and original share it, and a change to an element of one is visible in the other", f.Name(), bad)
 			case payload:
-				r.Pass("C11-copy-field", construct, fd.Pos(), "payload of type any: copied by value, opaque and shared by design")
+				r.Pass("C11-copy-field", construct, fd.Pos(), "payload of type any: assigned through a copying call")
 			case ref && bad != "":
 				r.Fail("C11-copy-field", construct, vals[0].Pos(), "reference-typed field %s is assigned from %s itself: copy and original share the same %s, a later change to one is visible in the other", f.Name(), bad, f.Type())
 			default:
